@@ -675,6 +675,10 @@ impl FixtureDatabase {
                     return Some(ctx);
                 }
             }
+
+            // The document parses: a position the syntax tree puts outside every signature,
+            // body and decorator is not a place where a fixture can be requested.
+            return None;
         }
 
         // Fallback: text-based analysis for incomplete/invalid Python
@@ -967,12 +971,18 @@ impl FixtureDatabase {
                         if !is_cursor_line {
                             // Cursor is on a line after the closing paren
                             signature_closed = true;
+                            break;
                         }
                         // If on cursor line, cursor might be before or after ')'
                         // but since this is a text fallback for broken syntax,
                         // we treat cursor on the same line as still in-signature
                     }
                 }
+            }
+
+            // Parentheses opened after the signature was closed belong to other code
+            if signature_closed {
+                break;
             }
 
             // After processing the cursor line, check if we're inside parens
